@@ -11,7 +11,7 @@ Lemma inv_init m d : Inv (init m d).
 Proof. split; [left; reflexivity|cbn; discriminate]. Qed.
 
 Ltac unfold_all :=
-  unfold step, do_commit, guard_write, guard_read, do_newbtree, do_openbtree, do_p1, do_p2, do_rollback, do_begin,
+  unfold step, do_commit, guard_write, guard_read, do_newbtree, do_openbtree, do_p1, do_p2, do_rollback, do_rollback_f, do_begin,
     op_add, op_find, op_update, op_remove, undo, undo_rewound,
     set_refetched, set_phase, set_committed, set_disk, set_work, set_prepared, set_open, set_handle, has_begun in *.
 
@@ -91,9 +91,32 @@ Proof.
     destruct (has_begun s) eqn:Hb; try reflexivity; cbn; split_matches; cbn; intros; discriminate.
 Qed.
 
-Lemma step_rollback_committed s : Inv s -> committed s = true -> fst (step s CRollback) = RErr /\ snd (step s CRollback) = s.
+Lemma step_rollback_committed s f : Inv s -> committed s = true -> fst (step s (CRollback f)) = RErr /\ snd (step s (CRollback f)) = s.
 Proof.
-  intros [_ Hc] H. pose proof (Hc H) as H2. cbn. unfold do_rollback. rewrite H2, H. cbn. split; reflexivity.
+  intros [_ Hc] H. pose proof (Hc H) as H2. cbn. unfold do_rollback_f. rewrite H2, H. cbn. split; reflexivity.
+Qed.
+
+(* Rollback and Commit end a begun transaction whatever they return, also when the undo fails *)
+Lemma step_always_ends s c : has_begun s = true ->
+  match c with CRollback _ | CCommit _ _ => True | _ => False end ->
+  phase (snd (step s c)) = 2.
+Proof.
+  intros Hb Hc. apply hb_true in Hb.
+  destruct s as [ph cm md dk hd op cr wk rm bc wc pr sl]; cbn in Hb.
+  assert (Hph : ph = 0 \/ ph = 1) by lia. destruct Hph; subst ph;
+  destruct c; try contradiction; unfold_all; cbn; split_matches; try reflexivity; cbn in *; discriminate.
+Qed.
+
+(* a failing Phase1Commit (begun) or Phase2Commit (phase 1) ends the transaction too *)
+Lemma step_failed_phase_ends s c : has_begun s = true -> fst (step s c) = RErr ->
+  match c with CP1 _ => True | CP2 _ => phase s = 1 | _ => False end ->
+  phase (snd (step s c)) = 2.
+Proof.
+  intros Hb Hr Hc. apply hb_true in Hb.
+  destruct s as [ph cm md dk hd op cr wk rm bc wc pr sl]; cbn in Hb, Hc.
+  assert (Hph : ph = 0 \/ ph = 1) by lia.
+  destruct c; try contradiction; destruct Hph; subst ph; try discriminate;
+    revert Hr; unfold_all; cbn; split_matches; cbn; intros; try discriminate; try reflexivity; cbn in *; discriminate.
 Qed.
 
 (* ---------------------------------------------------------------- runs *)
